@@ -171,4 +171,149 @@ theorem midApplyBlock_eq (ms : Mid) (b : Block) :
     refine bind_congr' rfl (fun sub => ?_)
     cases sub <;> simp only [hexp, bind_pure]
 
+-- ------------------------------------------------------------------ `base` is constant throughout a block
+
+@[simp] theorem putSc_base (ms : Mid) (id : Id) (f : ScDiff → ScDiff) : (ms.putSc id f).base = ms.base := by
+  unfold Mid.putSc; split <;> rfl
+@[simp] theorem putSf_base (ms : Mid) (id : Id) (f : SfDiff → SfDiff) : (ms.putSf id f).base = ms.base := by
+  unfold Mid.putSf; split <;> rfl
+@[simp] theorem createSc_base (ms : Mid) (id : Id) (o : ScOut) (m : Nat) : (ms.createSc id o m).base = ms.base := by
+  simp [Mid.createSc]
+@[simp] theorem createImmatureSc_base (ms : Mid) (id : Id) (o : ScOut) : (ms.createImmatureSc id o).base = ms.base := by
+  simp [Mid.createImmatureSc]
+@[simp] theorem createSf_base (ms : Mid) (id : Id) (v : Nat) (a : Addr) : (ms.createSf id v a).base = ms.base := by
+  simp [Mid.createSf]
+@[simp] theorem spendSc_base (ms : Mid) (e : ScElem) : (ms.spendSc e).base = ms.base := by
+  simp [Mid.spendSc]
+@[simp] theorem spendSf_base (ms : Mid) (e : SfElem) : (ms.spendSf e).base = ms.base := by
+  simp [Mid.spendSf]
+@[simp] theorem reviseFc1_base (ms : Mid) (e : Fc1Elem) (r : Fc1) : (ms.reviseFc1 e r).base = ms.base := by
+  simp [Mid.reviseFc1]
+@[simp] theorem reviseFc2_base (ms : Mid) (e : Fc2Elem) (r : Fc2) : (ms.reviseFc2 e r).base = ms.base := by
+  simp [Mid.reviseFc2]
+
+theorem createFc1_base {ms ms' : Mid} {id : Id} {fc : Fc1} (h : ms.createFc1 id fc = .ok ms') : ms'.base = ms.base := by
+  unfold Mid.createFc1 at h
+  obtain ⟨p, _, h⟩ := bind_ok_iff.1 h
+  simp at h; subst h; simp
+
+theorem foldlM_base {α} {f : Mid → α → VM Mid} (hstep : ∀ s x s', f s x = .ok s' → s'.base = s.base)
+    (l : List α) (s s' : Mid) (h : l.foldlM f s = .ok s') : s'.base = s.base :=
+  foldlM_inv (fun x => x.base = s.base) (fun a x b ha hf => by rw [hstep a x b hf, ha]) l s s' rfl h
+
+theorem a2Final_base (s : Mid) (t : Txn2) : (a2Final s t).base = s.base := by
+  unfold a2Final; simp only []; split
+  · split <;> rfl
+  · rfl
+
+theorem a1Final_base (s : Mid) (t : Txn1) : (a1Final s t).base = s.base := by
+  unfold a1Final; split
+  · split <;> rfl
+  · rfl
+
+theorem applyV2Transaction_base {ms ms' : Mid} {t : Txn2} (h : applyV2Transaction ms t = .ok ms') :
+    ms'.base = ms.base := by
+  rw [applyV2Transaction_eq] at h
+  obtain ⟨s1, h1, h⟩ := bind_ok_iff.1 h
+  obtain ⟨s2, h2, h⟩ := bind_ok_iff.1 h
+  obtain ⟨s3, h3, h⟩ := bind_ok_iff.1 h
+  obtain ⟨s4, h4, h⟩ := bind_ok_iff.1 h
+  obtain ⟨s5, h5, h⟩ := bind_ok_iff.1 h
+  obtain ⟨s6, h6, h⟩ := bind_ok_iff.1 h
+  obtain ⟨s7, h7, h⟩ := bind_ok_iff.1 h
+  simp at h; subst h
+  rw [a2Final_base]
+  have e1 := foldlM_base (fun s x s' hs => by simp [a2ScIn] at hs; subst hs; simp) _ _ _ h1
+  have e2 := foldlM_base (fun s x s' hs => by simp [a2ScOut] at hs; subst hs; simp) _ _ _ h2
+  have e3 := foldlM_base (fun s x s' hs => by
+      unfold a2SfIn at hs
+      obtain ⟨c, _, hs⟩ := bind_ok_iff.1 hs
+      simp at hs; subst hs; simp) _ _ _ h3
+  have e4 := foldlM_base (fun s x s' hs => by simp [a2SfOut] at hs; subst hs; simp) _ _ _ h4
+  have e5 := foldlM_base (fun s x s' hs => (createFc2_sces_base hs).2) _ _ _ h5
+  have e6 := foldlM_base (fun s x s' hs => by simp [a2Rev] at hs; subst hs; simp) _ _ _ h6
+  have e7 := foldlM_base (fun s x s' hs => by
+      unfold a2Res at hs
+      obtain ⟨r1, hr1, hs⟩ := bind_ok_iff.1 hs
+      obtain ⟨r2, hr2, hs⟩ := bind_ok_iff.1 hs
+      simp at hs; subst hs
+      simp [(a2ResNew_sces_base hr2).2, (resolveFc2_sces_base hr1).2]) _ _ _ h7
+  rw [e7, e6, e5, e4, e3, e2, e1]
+
+theorem applyTransaction_base {ms ms' : Mid} {t : Txn1} (h : applyTransaction ms t = .ok ms') :
+    ms'.base = ms.base := by
+  rw [applyTransaction_eq] at h
+  obtain ⟨s1, h1, h⟩ := bind_ok_iff.1 h
+  obtain ⟨s2, h2, h⟩ := bind_ok_iff.1 h
+  obtain ⟨s3, h3, h⟩ := bind_ok_iff.1 h
+  obtain ⟨s4, h4, h⟩ := bind_ok_iff.1 h
+  obtain ⟨s5, h5, h⟩ := bind_ok_iff.1 h
+  obtain ⟨s6, h6, h⟩ := bind_ok_iff.1 h
+  obtain ⟨s7, h7, h⟩ := bind_ok_iff.1 h
+  simp at h; subst h
+  rw [a1Final_base]
+  have e1 := foldlM_base (fun s x s' hs => by
+      unfold a1ScIn at hs
+      split at hs
+      · cases hs
+      · simp at hs; subst hs; simp) _ _ _ h1
+  have e2 := foldlM_base (fun s x s' hs => by simp [a1ScOut] at hs; subst hs; simp) _ _ _ h2
+  have e3 := foldlM_base (fun s x s' hs => by
+      unfold a1SfIn at hs
+      split at hs
+      · cases hs
+      · obtain ⟨c, _, hs⟩ := bind_ok_iff.1 hs
+        simp at hs; subst hs; simp) _ _ _ h3
+  have e4 := foldlM_base (fun s x s' hs => by simp [a1SfOut] at hs; subst hs; simp) _ _ _ h4
+  have e5 := foldlM_base (fun s x s' hs => createFc1_base hs) _ _ _ h5
+  have e6 := foldlM_base (fun s x s' hs => by
+      unfold a1Rev at hs
+      split at hs
+      · cases hs
+      · simp at hs; subst hs; simp) _ _ _ h6
+  have e7 := foldlM_base (fun s x s' hs => by
+      unfold a1Proof at hs
+      split at hs
+      · cases hs
+      · have := foldlM_base (fun s x s' hs => by simp [a1Payout] at hs; subst hs; simp) _ _ _ hs
+        rw [this]; simp) _ _ _ h7
+  rw [e7, e6, e5, e4, e3, e2, e1]
+
+/-- Every transaction of an accepted block was accepted by its validator at a mid-state over the
+block's ledger (`s.base = L`): the one reached by validating and applying the transactions before it. -/
+theorem validateBlock_ok_txns {L : Ledger} {b : Block} {pid : Id} {ms : Mid} (h : validateBlock L b pid = .ok ms) :
+    (∀ pre t post, b.txns1 = pre ++ t :: post → ∃ s, pre.foldlM (vb1Step pid b.maxWeight) (newMid L) = .ok s ∧
+      s.base = L ∧ validateTransaction s t pid b.maxWeight = .ok ()) ∧
+    (∀ pre t post, b.txns2 = pre ++ t :: post → ∃ s0 s, b.txns1.foldlM (vb1Step pid b.maxWeight) (newMid L) = .ok s0 ∧
+      pre.foldlM (vb2Step b.maxWeight) s0 = .ok s ∧ s.base = L ∧ validateV2Transaction s t b.maxWeight = .ok ()) := by
+  rw [validateBlock_eq] at h
+  obtain ⟨_, _, h⟩ := bind_ok_iff.1 h
+  obtain ⟨_, _, h⟩ := bind_ok_iff.1 h
+  split at h
+  · exact absurd h (reject_ne_ok _ _)
+  obtain ⟨s0, h1, h2⟩ := bind_ok_iff.1 h
+  have b1 : ∀ (l : List Txn1) (s s' : Mid), l.foldlM (vb1Step pid b.maxWeight) s = .ok s' → s'.base = s.base :=
+    fun l s s' => foldlM_base (fun s x s' hs => by
+      obtain ⟨_, _, ha⟩ := bind_ok_iff.1 hs
+      exact applyTransaction_base ha) l s s'
+  have b2 : ∀ (l : List Txn2) (s s' : Mid), l.foldlM (vb2Step b.maxWeight) s = .ok s' → s'.base = s.base :=
+    fun l s s' => foldlM_base (fun s x s' hs => by
+      obtain ⟨_, _, ha⟩ := bind_ok_iff.1 hs
+      exact applyV2Transaction_base ha) l s s'
+  constructor
+  · intro pre t post hsplit
+    rw [hsplit, List.foldlM_append] at h1
+    obtain ⟨s, hs, h1⟩ := bind_ok_iff.1 h1
+    rw [List.foldlM_cons] at h1
+    obtain ⟨s', hs', _⟩ := bind_ok_iff.1 h1
+    obtain ⟨_, hv, _⟩ := bind_ok_iff.1 hs'
+    exact ⟨s, hs, by rw [b1 _ _ _ hs]; rfl, hv⟩
+  · intro pre t post hsplit
+    rw [hsplit, List.foldlM_append] at h2
+    obtain ⟨s, hs, h2⟩ := bind_ok_iff.1 h2
+    rw [List.foldlM_cons] at h2
+    obtain ⟨s', hs', _⟩ := bind_ok_iff.1 h2
+    obtain ⟨_, hv, _⟩ := bind_ok_iff.1 hs'
+    exact ⟨s0, s, h1, hs, by rw [b2 _ _ _ hs, b1 _ _ _ h1]; rfl, hv⟩
+
 end Sia.Ledger
